@@ -209,6 +209,67 @@ theorem noop_never_blocks (s : State) (ev : Event) :
       | panic => rw [stepTriggerNoop_panic hfm hr]; simp
   · exact stepTriggerNoop_keeps s ev
 
+/-- **Arbitrary backlog.** However many matching triggers (`n` is any number) hit a `Noop` barrier while the test
+    is not waiting, every one returns at once, nothing is ever parked, and the barrier's channel holds all `n`
+    reports in trigger order — the channel has no capacity the source could notice. (`once_in_order` then
+    hands them to `wait` one by one.) -/
+theorem noop_backlog (n : Nat) :
+    ∀ (s : State) (ev : Event) (l : Live), (firstMatch s.regs ev).map proj = some l → l.reaction = .noop →
+      run s (List.replicate n (.trigger ev)) = List.replicate n ⟨.done, []⟩ ∧
+      run s (List.replicate n (.triggerNoop ev)) = List.replicate n ⟨.done, []⟩ ∧
+      queueOf l.id (final s (List.replicate n (.trigger ev))).regs
+        = queueOf l.id s.regs ++ (List.range n).map (fun i => ⟨s.nextT + i, ev, false⟩) ∧
+      queueOf l.id (final s (List.replicate n (.triggerNoop ev))).regs
+        = queueOf l.id s.regs ++ (List.range n).map (fun i => ⟨s.nextT + i, ev, false⟩) ∧
+      (final s (List.replicate n (.trigger ev))).suspended = s.suspended ∧
+      (final s (List.replicate n (.triggerNoop ev))).suspended = s.suspended := by
+  induction n with
+  | zero => intro s ev l _ _; simp [run, final]
+  | succ n ih =>
+    intro s ev l hm hr
+    cases hfm : firstMatch s.regs ev with
+    | none => rw [hfm] at hm; cases hm
+    | some e =>
+      rw [hfm] at hm
+      have hl : proj e = l := by simpa using hm
+      have hre : e.reaction = .noop := by rw [← hl] at hr; exact hr
+      have hid : e.id = l.id := by rw [← hl]; rfl
+      have hlive := firstMatch_live hfm
+      -- the state after one trigger (both forms coincide on a Noop match)
+      have hs1 : (step s (.trigger ev)).1 = (step s (.triggerNoop ev)).1 := by
+        show (stepTrigger s ev).1 = (stepTriggerNoop s ev).1
+        rw [stepTrigger_noop hfm hre, stepTriggerNoop_noop hfm hre]
+      have hst : step s (.trigger ev) =
+          ({ s with nextT := s.nextT + 1, regs := enqueue e.id ⟨s.nextT, ev, false⟩ s.regs }, ⟨.done, []⟩) :=
+        stepTrigger_noop hfm hre
+      have hstN : step s (.triggerNoop ev) =
+          ({ s with nextT := s.nextT + 1, regs := enqueue e.id ⟨s.nextT, ev, false⟩ s.regs }, ⟨.done, []⟩) :=
+        stepTriggerNoop_noop hfm hre
+      have hm' : (firstMatch (step s (.trigger ev)).1.regs ev).map proj = some l := by
+        rw [hst]
+        show (firstMatch (enqueue e.id ⟨s.nextT, ev, false⟩ s.regs) ev).map proj = some l
+        rw [← firstMatch_proj, proj_enqueue, firstMatch_proj, hfm]; simpa using hl
+      have h := ih (step s (.trigger ev)).1 ev l hm' hr
+      have hq1 : queueOf l.id (step s (.trigger ev)).1.regs = queueOf l.id s.regs ++ [⟨s.nextT, ev, false⟩] := by
+        rw [hst, ← hid]; exact queueOf_enqueue_self _ hlive
+      have hnt : (step s (.trigger ev)).1.nextT = s.nextT + 1 := by rw [hst]
+      have hsu : (step s (.trigger ev)).1.suspended = s.suspended := by rw [hst]
+      have hrange : (List.range (n + 1)).map (fun i => (⟨s.nextT + i, ev, false⟩ : Report)) =
+          ⟨s.nextT, ev, false⟩ :: (List.range n).map (fun i => ⟨s.nextT + 1 + i, ev, false⟩) := by
+        rw [List.range_succ_eq_map]
+        simp [List.map_map, Function.comp_def, Nat.add_assoc, Nat.add_comm 1]
+      obtain ⟨h1, h2, h3, h4, h5, h6⟩ := h
+      refine ⟨?_, ?_, ?_, ?_, ?_, ?_⟩
+      · simp only [List.replicate_succ, run]; rw [h1, hst]
+      · simp only [List.replicate_succ, run]; rw [← hs1, h2, hstN]
+      · simp only [List.replicate_succ, final]; rw [h3, hq1, hnt, hrange]; simp
+      · simp only [List.replicate_succ, final]; rw [← hs1, h4, hq1, hnt, hrange]; simp
+      · simp only [List.replicate_succ, final]; rw [h5, hsu]
+      · simp only [List.replicate_succ, final]; rw [← hs1, h6, hsu]
+
+example : (queueOf 0 (final init (.build .noop (fun _ => true) :: List.replicate 12 (.trigger ⟨0, 0⟩))).regs).length = 12 := by
+  decide
+
 example : ∃ e, firstMatch (final init [.build .noop (fun _ => true)]).regs ⟨0, 1⟩ = some e ∧ e.reaction = .noop :=
   ⟨_, rfl, rfl⟩
 
